@@ -13,6 +13,8 @@ CIS_IN = 'midnight_circuits::verifier::kzg::construct_intermediate_sets'
 
 def run(ck):
     w = ck.world()
+    r4_identity(ck, w)
+    r5_point_domains(ck, w)
     ck.explanation = (
         'Static rules for the multi-opening argument: (R1) multi_open (write→read) = multi_prepare = in-circuit multi_prepare as transcript schedules '
         '(x1, x2, f commitment, x3, one evaluation per point set, x4, pi); (R2) both copies of construct_intermediate_sets have a reachable duplicate-query '
@@ -66,3 +68,43 @@ def run(ck):
                     ck.record('C14.R3', f'{short(root)}:{b["n"]}:used', refs > 0 and not b['n'].startswith('_'), 'read value is used',
                               f'{root}: value `{b["n"]}` read from the proof is never used: the opening is not bound to it', hirq.fn_loc(f, n))
         ck.floor('C14.R3', f'{short(root)} reads bound', n_reads, 2)
+
+
+def r4_identity(ck, w):
+    from ..engines import ziplint
+    from .. import tables
+    ck.rule('C14.R4', 'commitment identity is exact: equality tests in proofs/src/poly that run over `zip` (CommitmentReference::eq compares the pieces of chopped '
+                      'commitments pairwise) also compare the lengths; otherwise a chopped commitment equals every extension of itself, is merged with it by '
+                      'construct_intermediate_sets and reported as a duplicate query (or its last piece is never bound)')
+    ziplint.check(ck, w, 'C14.R4', ['proofs'], lambda file: file.startswith('proofs/src/poly/'), tables.ZIP_EQ_OK, 0)
+    f = w.fn('<midnight_proofs::poly::query::CommitmentReference as core::cmp::PartialEq>::eq', required=False)
+    if f is None:
+        ck.bad('C14.R4', 'CommitmentReference::eq:anchor', 'CommitmentReference::eq not found (anchor)')
+        return
+    from ..core import walk
+    lens = [n for n in walk(f['body']) if n.get('k') == 'mcall' and n.get('m') == 'len']
+    ck.record('C14.R4', 'CommitmentReference::eq:compares-lengths', len(lens) >= 2, 'the piece lists are compared by length',
+              'CommitmentReference::eq no longer compares the number of pieces of two chopped commitments', None)
+
+
+def r5_point_domains(ck, w):
+    """two index domains of construct_intermediate_sets must not be mixed: global point indices vs positions inside a point set"""
+    from ..core import walk, peel, expr_str
+    ck.rule('C14.R5', 'index domains of the intermediate sets: `point_sets[set]` is a list indexed by POSITION inside the set, `CommitmentData::point_indices` holds '
+                      'GLOBAL point indices (order of first appearance in the query list).  No `point_sets[..][i]` may take its inner index from point_indices: '
+                      'for a chopped commitment queried at any point but the first distinct one this indexes a one-element set out of bounds (verifier panic on an '
+                      'honest proof).')
+    n = 0
+    for f in w.all_fns(['proofs']):
+        if not f['file'].startswith('proofs/src/poly/kzg/') or '::tests' in f['_nid']:
+            continue
+        for x in walk(f['body']):
+            if x.get('k') != 'index':
+                continue
+            base = peel(x['e'])
+            if base.get('k') == 'index' and 'point_sets' in expr_str(base['e']):
+                n += 1
+                mixes = any(y.get('k') == 'field' and y.get('n') == 'point_indices' for y in walk(x['i']))
+                ck.record('C14.R5', f'{f["_nid"]}|{expr_str(x)[:60]}', not mixes, 'inner index is a position inside the set',
+                          f'{f["_nid"]}: `{expr_str(x)[:80]}` indexes a point set (positions) with a global point index', hirq.fn_loc(f, x))
+    ck.floor('C14.R5', 'point-set element accesses', n, 1)
